@@ -17,8 +17,9 @@ def bo_graph(rng):
     g = gen.Graph()
     nid = 0
     bo = 0
+    region_names = rng.random() < 0.15     # region-style stable sequence names such as chr1:0-5000 (the SN value holds ':')
     for c in range(rng.randint(1, 3)):
-        name = "chr%d" % (c + 1)
+        name = ("chr1:%d-%d" % (c * 5000, (c + 1) * 5000)) if region_names else "chr%d" % (c + 1)
         so = 0
         prev = None
         for k in range(rng.randint(2, 5)):
